@@ -1,6 +1,7 @@
 import Cutadapt.Proofs.StepsPaired
 import Cutadapt.Proofs.StepsPair
 import Cutadapt.Proofs.StepsShape
+import Cutadapt.Generated.PairFilter
 /-! # C05 — paired-end outputs stay synchronized and pairs are filtered as a unit
 
 Model: `Cutadapt.Pipeline` (`stepP`, `pairFiltered`, `applyP … (.pairAdapters …)`, `bestPairGo`, `runPaired`),
@@ -286,5 +287,84 @@ theorem paired_rename_keeps_ids_matched (a1 a2 : List Matchable) (t1 t2 : List T
         exact ⟨by simpa using hm, by simpa using hm2, rfl, rfl, rfl, rfl⟩
     · simp at h
     · simp at h
+
+/-! ## The pair decisions of the real program (regenerated from the working tree on every run)
+
+`Cutadapt.Generated.pairDecisions` holds, for every filtering option × `--pair-filter` setting × (for the trimmed/untrimmed filters) the reads
+for which adapters are given, what the real command-line program did with four probe pairs in which the filter's criterion holds for
+both reads, R1 only, R2 only, neither. -/
+
+/-- the documented combinations of the two per-read answers -/
+def combine : PairMode → Bool → Bool → Bool
+  | .any, a, b => a || b
+  | .both, a, b => a && b
+  | .first, a, _ => a
+
+def requestedMode : String → Option PairMode
+  | "any" => some .any
+  | "both" => some .both
+  | "first" => some .first
+  | _ => none
+
+/-- `--pair-filter` if given, otherwise `any`; `both` is forced for the untrimmed filters when adapters are given for one read only -/
+def documentedMode (filter requested sided : String) : PairMode :=
+  if (filter == "discard_untrimmed" || filter == "untrimmed_output") && sided != "both" then .both
+  else (requestedMode requested).getD .any
+
+/-- **Every filter of the real program combines the two per-read answers as documented**: for every observed probe pair the pair was
+    removed from the main output exactly when the documented combination of "criterion holds for R1" and "criterion holds for R2" says so —
+    for all filters (too short, too long, too many N, expected errors, average error rate, CASAVA, discard-trimmed, discard-untrimmed,
+    untrimmed output), all four `--pair-filter` settings and adapters on both reads / R1 only / R2 only. -/
+theorem generated_pair_decisions_documented :
+    ∀ row ∈ Generated.pairDecisions, ∀ o ∈ row.2.2.2,
+      o.2.2 = combine (documentedMode row.1 row.2.1 row.2.2.1) o.1 o.2.1 := by
+  decide
+
+/-- … and **every filter step that the assembly model builds uses the documented combination**, for all option records: its mode is
+    `--pair-filter` (default `any`), except that the untrimmed filter of a paired run with adapters for one read only uses `both` — so the
+    model, to which the theorems above apply, and the program (the table) agree on how a pair is judged. -/
+theorem filter_modes_documented {o : Opts} {names names2 : List String} {steps : List Step} {f : Files}
+    (h : makeSteps o names names2 = .ok (steps, f)) (p1 p2 : Option Pred) (mode : PairMode) (w : Option Nat)
+    (hs : Step.filter p1 p2 mode w ∈ steps) :
+    mode = o.pairFilter.getD .any ∨
+      (mode = .both ∧ p1 = some .isUntrimmed ∧ o.paired = true ∧ (names2.isEmpty || names.isEmpty) = true ∧
+        (o.discardUntrimmed || (o.untrimmedOut.isSome || o.untrimmedPaired.isSome)) = true) := by
+  obtain ⟨dm, -, -, -, heq⟩ := makeSteps_ok h
+  have hfront : ∀ s ∈ (front o).2 ++ simpleSteps o, ∀ p1 p2 mode w, s = Step.filter p1 p2 mode w → mode = o.pairFilter.getD .any := by
+    intro s hs p1 p2 mode w he
+    subst he
+    simp only [front, addLen, addText, simpleSteps, optSteps, bothStep, List.mem_append] at hs
+    rcases hs with hs | hs
+    · cases hmax : o.maxLen <;> cases hmin : o.minLen <;> cases hwf : o.wildcardFile <;> cases hif : o.infoFile <;> cases hrf : o.restFile <;>
+        simp [hmax, hmin, hwf, hif, hrf] at hs <;> grind
+    · cases hn : o.maxN <;> cases he : o.maxEE <;> cases ha : o.maxAER <;> cases hq : o.inputHasQualities <;> cases hc : o.discardCasava <;>
+        cases hp : o.paired <;> simp [hn, he, ha, hq, hc, hp] at hs <;> grind
+  simp only [finalD] at heq
+  split at heq
+  · split at heq <;> (simp only [Prod.mk.injEq] at heq; obtain ⟨rfl, -⟩ := heq; simp only [List.mem_append, List.mem_singleton] at hs)
+    · rcases hs with hs | hs
+      · exact .inl (hfront _ (List.mem_append.mpr hs) _ _ _ _ rfl)
+      · cases hs
+    · rcases hs with hs | hs
+      · exact .inl (hfront _ (List.mem_append.mpr hs) _ _ _ _ rfl)
+      · cases hs
+  · split at heq
+    · simp only [Prod.mk.injEq] at heq
+      obtain ⟨rfl, -⟩ := heq
+      simp only [List.mem_append, List.mem_singleton] at hs
+      rcases hs with hs | hs
+      · exact .inl (hfront _ (List.mem_append.mpr hs) _ _ _ _ rfl)
+      · cases hs
+    · simp only [Prod.mk.injEq] at heq
+      obtain ⟨rfl, -⟩ := heq
+      simp only [List.mem_append, List.mem_singleton] at hs
+      rcases hs with (hs | hs) | hs
+      · exact .inl (hfront _ (List.mem_append.mpr hs) _ _ _ _ rfl)
+      · unfold untrimmedFilter at hs
+        simp only [bothStep] at hs
+        cases hdt : o.discardTrimmed <;> cases hdu : o.discardUntrimmed <;> cases hp : o.paired <;>
+          cases hug : (o.untrimmedOut.isSome || o.untrimmedPaired.isSome) <;>
+          cases hem : (names2.isEmpty || names.isEmpty) <;> simp [hdt, hdu, hp, hug, hem] at hs ⊢ <;> grind
+      · cases hs
 
 end Cutadapt.C05
